@@ -116,34 +116,41 @@ def write_if_changed(path, content):
 # ----------------------------------------------------------------------------- Go harness
 
 def harness_gomod():
-    """go.mod of the harness = /repo's requirements + replace massnet.org/mass-wallet => /repo."""
+    """go.mod of the harness = REPO's requirements + replace massnet.org/mass-wallet => REPO.
+    Written outside the module directory and passed with -modfile, so that runs against different
+    repositories (VERIF_REPO) never share it; harness/go.mod only marks the module root."""
     with open(os.path.join(REPO, "go.mod")) as f:
         src = f.read()
     m = re.search(r"require \((.*?)\n\)", src, re.S)
     reqs = m.group(1) if m else ""
     reps = "\n".join(l for l in src.splitlines() if l.startswith("replace "))
-    extra = ""
-    mod = ("module verifharness\n\ngo 1.13\n\nrequire (%s\n\tmassnet.org/mass-wallet v0.0.0\n%s)\n\n"
-           "replace massnet.org/mass-wallet => %s\n%s\n" % (reqs, extra, REPO, reps))
-    write_if_changed(os.path.join(HARNESS, "go.mod"), mod)
-    # go.sum: the repository's own, plus whatever the harness added earlier
+    mod = ("module verifharness\n\ngo 1.13\n\nrequire (%s\n\tmassnet.org/mass-wallet v0.0.0\n)\n\n"
+           "replace massnet.org/mass-wallet => %s\n%s\n" % (reqs, REPO, reps))
+    d = os.path.join(BUILD, "gomod")
+    os.makedirs(d, exist_ok=True)
+    write_if_changed(os.path.join(d, "go.mod"), mod)
     sums = set()
-    for p in (os.path.join(REPO, "go.sum"), os.path.join(HARNESS, "go.sum.extra")):
+    for p in (os.path.join(REPO, "go.sum"), os.path.join(HARNESS, "go.sum.extra"), os.path.join(d, "go.sum")):
         if os.path.exists(p):
             with open(p) as f:
                 sums.update(l for l in f.read().splitlines() if l.strip())
-    write_if_changed(os.path.join(HARNESS, "go.sum"), "\n".join(sorted(sums)) + "\n")
+    write_if_changed(os.path.join(d, "go.sum"), "\n".join(sorted(sums)) + "\n")
+    marker = os.path.join(HARNESS, "go.mod")
+    if not os.path.exists(marker):
+        write_if_changed(marker, mod.replace("=> %s" % REPO, "=> /repo"))
+        shutil.copy(os.path.join(d, "go.sum"), os.path.join(HARNESS, "go.sum"))
+    return os.path.join(d, "go.mod")
 
 
 def go_build(names, race=False):
     """Build harness commands from /repo's current working tree with the verif tag."""
-    with GlobalLock("go"):
-        harness_gomod()
+    with Lock("go"):
+        modfile = harness_gomod()
         os.makedirs(BIN, exist_ok=True)
         outs = []
         for n in names:
             out = os.path.join(BIN, n + ("-race" if race else ""))
-            cmd = ["go", "build", "-tags", "verif"] + (["-race"] if race else []) + ["-o", out, "./cmd/" + n]
+            cmd = ["go", "build", "-modfile=" + modfile, "-tags", "verif"] + (["-race"] if race else []) + ["-o", out, "./cmd/" + n]
             rc, o, e = sh(cmd, timeout=1500, cwd=HARNESS)
             if rc != 0:
                 return None, (o + e)
